@@ -68,3 +68,8 @@ impl<T: Types> crate::kani_support::ghost_chan::GhostItem for SeqRequest<T> {
         SeqRequest { seq, req }
     }
 }
+
+/// Run the real non-flush request handler (RemoveChunks / AppendFile).
+pub(crate) fn handle_nf<T: Types>(w: &mut FlushWorker<T>, req: WorkerRequest<T>) -> Result<(), io::Error> {
+    w.handle_non_flush_request(req)
+}
